@@ -176,11 +176,11 @@ fn lib_decode_hdr(full: &[u8], wire_order: Option<&[u8]>) -> String {
     }
 }
 
-const IFACES: &[&str] = &["a.b", "org.freedesktop.DBus", "a.b.c.d.e", "x1._y.z", "bad", "a..b", "1a.b", "a.b\u{e9}"];
+const IFACES: &[&str] = &["a.b", "org.freedesktop.DBus", "a.b.c.d.e", "x1._y.z", "bad", "a..b", "1a.b", "a.b\u{e9}", "", ".", "a.", ".a"];
 const MEMBERS: &[&str] = &["M", "Ping", "Get_All9", "abcdefgh", "_x", "1bad", "a.b", "", "-Frob", ".Get", " Get", "Ge-t"];
-const PATHS: &[&str] = &["/", "/a", "/org/x_1", "/a/b/c/d", "/0", "/org/0a/7", "/_", "a", "/a/", "//", "/a-b", "/a/.b"];
-const BUSES: &[&str] = &[":1.5", "a.b", "org.x-y.z", ":1.42.7", "a._7", "a", ".a.b", "a.1b", "org.7zip.x", "a.b.2nd", ":1..5", ":1.", ":.1", "a..b", ":"];
-const ERRS: &[&str] = &["a.b.Err", "org.freedesktop.DBus.Error.Failed", "E", "a.b-c"];
+const PATHS: &[&str] = &["/", "/a", "/org/x_1", "/a/b/c/d", "/0", "/org/0a/7", "/_", "a", "/a/", "//", "/a-b", "/a/.b", ""];
+const BUSES: &[&str] = &[":1.5", "a.b", "org.x-y.z", ":1.42.7", "a._7", "a", ".a.b", "a.1b", "org.7zip.x", "a.b.2nd", ":1..5", ":1.", ":.1", "a..b", ":", "", ".", ":."];
+const ERRS: &[&str] = &["a.b.Err", "org.freedesktop.DBus.Error.Failed", "E", "a.b-c", "", ".", "a..b", "1a.b"];
 
 fn pick_name(rng: &mut Prng, pool: &[&str], pad_to: Option<usize>) -> String {
     let mut s = rng.pick(pool).to_string();
